@@ -2,7 +2,6 @@
    editing operations on the trees the constructors build. *)
 From V.model Require Import Base RelLex RelParse RelEdit RelEditSpec RelEditTree.
 From V.proofs Require Import BaseP.
-Set Default Timeout 60.
 
 (* ------------------------------------------------------------------ lists *)
 Lemma insert_at_nil {A} i (l : list A) : insert_at i [] l = l.
